@@ -861,6 +861,206 @@ static void run_dc(void)
 }
 /* ------------------------------------------------------------------ end extension H (DM) */
 
+/* ------------------------------------------------------------------ extension H (XP): qlfqueue / hazard pointers called by an
+ * EXTERNAL caller = a plain pthread that is not a qthread worker (qthread_internal_getworker() == NULL).  Experiment mode: NOT used
+ * by ./check.  ONE XP line per harness process (every scenario ends with _exit; on a fatal signal the handler prints
+ *   XP SIGNAL <signo> addr <si_addr> pc +0x<offset in the executable> tid <baton id> ext <0|1>      XP BT +0x.. +0x.. ...
+ * and lets the default action kill the process, so the caller observes the signal as the exit status).
+ *   XP 1 <next> <ncons> <per>   free-running, real pool: <next> pthreads enqueue <per> items each, <ncons> worker tasks dequeue;
+ *                               C-side conservation oracle.   -> "XP1 | total .. delivered .. lost .. dup .. order_bad .. | hzlen .. | verdict .."
+ *   XP 2 <nitems>               the controller enqueues <nitems>, then ONE pthread calls qlfqueue_dequeue once.
+ *                               -> "XP2 | dequeued <v> | hzlen <n> | verdict OK"   (or XP SIGNAL)
+ *   XP 3 <hi> <nreg>            baton + fixed arena, needs >= 2 shepherds.  <nreg> extra pthreads only register a (zero) slot array.
+ *        prefill 1..fmax by the controller; worker task W (shepherd 1) dequeues fmax-1; external pthread E starts a dequeue and is
+ *        parked before its CAS on q->head (slots: X = head, Y = next); W dequeues once more (fmax-th retire: hazardous_scan), then
+ *        enqueues 900 and dequeues once; E performs its CAS; the controller drains; E finishes.
+ *        -> "g <t> <KIND>[ <res>] | E <slot0> <slot1> <LR dump>" per grant (arena ordinals), and the verdict lines
+ *           "XP3 scan | X .. Y .. | slotE .. .. | X_freed .. | hzlen .. | verdict PROTECTION-LOST|PROTECTED"
+ *           "XP3 E-CAS | succeeded <0|1> ..."      "XP3 conservation | ... | verdict OK|VIOLATED"      "XP3 F | E <res>"      */
+#include <execinfo.h>
+#include <dlfcn.h>
+static __thread int xp_is_ext = 0;
+static void xp_on_signal(int sig, siginfo_t *si, void *uc_)
+{
+    char buf[1024]; int n; void *bt[40]; void *pc = NULL; Dl_info di;
+    memset(&di, 0, sizeof di);
+    dladdr((void *)&xp_on_signal, &di);
+    fflush(stdout);
+    int k = backtrace(bt, 40);            /* bt[0] = this handler, bt[1] = signal trampoline, bt[2] = the faulting instruction */
+    if (k > 2) pc = bt[2];
+    n = snprintf(buf, sizeof buf, "XP SIGNAL %d addr %p pc +0x%lx tid %d ext %d\nXP BT", sig, si ? si->si_addr : NULL,
+                 (unsigned long)((char *)pc - (char *)di.dli_fbase), my_tid, xp_is_ext);
+    for (int i = 0; i < k && n < (int)sizeof buf - 32; i++) n += snprintf(buf + n, sizeof buf - n, " +0x%lx", (unsigned long)((char *)bt[i] - (char *)di.dli_fbase));
+    n += snprintf(buf + n, sizeof buf - n, "\n");
+    if (write(1, buf, n) < 0) { }
+    signal(sig, SIG_DFL);                 /* returning re-executes the faulting instruction / abort() re-raises: default action */
+}
+static void xp_signals(void)
+{
+    struct sigaction sa; memset(&sa, 0, sizeof sa);
+    sa.sa_sigaction = xp_on_signal; sa.sa_flags = SA_SIGINFO;
+    sigaction(SIGSEGV, &sa, NULL); sigaction(SIGBUS, &sa, NULL); sigaction(SIGABRT, &sa, NULL);
+}
+#define XPRINT(...) do { printf(__VA_ARGS__); fflush(stdout); } while (0)
+
+/* ---- XP 1 */
+static void *xp1_prod_thread(void *a_) { xp_is_ext = 1; m4_producer(a_); return NULL; }
+static void run_xp1(int next, int ncons, unsigned long per)
+{
+    m4_completed = m4_delivered = m4_prod_done = 0; m4_go = 0; m4_total = (unsigned long)next * per;
+    lfq = qlfqueue_create();
+    int nt = next + ncons;
+    m4_arg_t *args = calloc(nt, sizeof(m4_arg_t));
+    aligned_t *rets = calloc(nt, sizeof(aligned_t));
+    pthread_t *th = calloc(next, sizeof(pthread_t));
+    unsigned ns = qthread_num_shepherds();
+    alarm(120);
+    for (int i = 0; i < nt; i++) {
+        m4_arg_t *a = &args[i];
+        a->kind = 1; a->nprod = next; a->ncons = ncons; a->blocking = 0; a->per = per;
+        if (i < next) { a->id = i; pthread_create(&th[i], NULL, xp1_prod_thread, a); }
+        else { a->id = i - next; a->capgot = m4_total + 16; a->got = malloc(sizeof(unsigned long) * a->capgot);
+               qthread_fork_to(m4_consumer, a, &rets[i], (ns - 1 - (a->id % ns))); }
+    }
+    m4_go = 1;
+    for (int i = 0; i < next; i++) pthread_join(th[i], NULL);
+    for (int i = next; i < nt; i++) qthread_readFF(NULL, &rets[i]);
+    unsigned long late = 0; void *p;
+    while ((p = qlfqueue_dequeue(lfq)) != NULL) late++;
+    alarm(0);
+    unsigned char *seen = calloc(m4_total + 1, 1);
+    unsigned long dup = 0, lost = 0, bad = 0, order_bad = 0, delivered = 0;
+    for (int i = next; i < nt; i++) {
+        m4_arg_t *a = &args[i];
+        unsigned long *lastseq = calloc(next, sizeof(unsigned long));
+        for (unsigned long j = 0; j < a->ngot && j < a->capgot; j++) {
+            unsigned long pid = (a->got[j] >> 32) - 1, sq = (a->got[j] & 0xffffffffUL) - 1;
+            delivered++;
+            if (pid >= (unsigned long)next || sq >= per) { bad++; continue; }
+            if (seen[pid * per + sq]++) dup++;
+            if (lastseq[pid] && sq + 1 <= lastseq[pid]) order_bad++;
+            lastseq[pid] = sq + 1;
+        }
+        free(lastseq);
+    }
+    for (unsigned long k = 0; k < m4_total; k++) if (!seen[k]) lost++;
+    XPRINT("XP1 | total %lu delivered %lu lost %lu dup %lu bad %lu order_bad %lu late %lu | hzlen %lu fmax %u | verdict %s\n",
+           m4_total, delivered, lost, dup, bad, order_bad, late, (unsigned long)hzptr_list_len, freelist_max,
+           (lost || dup || bad || order_bad || late) ? "VIOLATED" : "OK");
+}
+
+/* ---- XP 2 */
+static void *volatile xp2_res;
+static void *xp2_thread(void *arg) { xp_is_ext = 1; xp2_res = qlfqueue_dequeue(lfq); return NULL; }
+static void run_xp2(unsigned long nitems)
+{
+    pthread_t th;
+    lfq = qlfqueue_create();
+    for (unsigned long v = 1; v <= nitems; v++) qlfqueue_enqueue(lfq, (void *)(uintptr_t)v);
+    XPRINT("XP2 start | items %lu | getworker(main) %s\n", nitems, qthread_internal_getworker() ? "non-NULL" : "NULL");
+    alarm(60);
+    pthread_create(&th, NULL, xp2_thread, NULL);
+    pthread_join(th, NULL);
+    alarm(0);
+    XPRINT("XP2 | dequeued %lu | hzlen %lu | verdict OK\n", (unsigned long)(uintptr_t)xp2_res, (unsigned long)hzptr_list_len);
+}
+
+/* ---- XP 3 */
+static unsigned long xp_wres[MAXOPS]; static int xp_nwres = 0;      /* values W's dequeues returned */
+static uintptr_t *xp_eslots(void) { return hzptr_list; }               /* E registers last: its array is the list head */
+static void *xp3_ext_thread(void *arg) { xp_is_ext = 1; lf_task(arg); return NULL; }
+static void *xp3_reg_thread(void *arg) { xp_is_ext = 1; (hazardous_ptr)(0, NULL); return NULL; }
+static int xp_in_free(void *p) { for (fl_t *f = arena_free; f; f = f->next) if ((void *)f == p) return 1; return 0; }
+static int xp_grant(int t)
+{
+    if (t_finished[t]) { XPRINT("g %d -\n", t); return -1; }
+    sem_post(&sem_thr[t]); ctl_wait();
+    uintptr_t *es = xp_eslots();
+    if (sp_kind_of[t] == K_END) {
+        printf("g %d END %s", t, res_buf[t]);
+        if (t == 1 && res_buf[t][0] == 'p' && xp_nwres < MAXOPS) xp_wres[xp_nwres++] = strtoul(res_buf[t] + 1, NULL, 10);
+    } else if (sp_kind_of[t] == K_CAS) printf("g %d %s", t, sp_addr_of[t] == (void *)&lfq->head ? "CASH" : sp_addr_of[t] == (void *)&lfq->tail ? "CAST" : "CASN");
+    else printf("g %d %s", t, kname(t));
+    if (es) printf(" | E %ld %ld", arena_ord((void *)es[0]), arena_ord((void *)es[1])); else printf(" | E - -");
+    lr_dump(); fflush(stdout);
+    return sp_kind_of[t];
+}
+static void run_xp3(int hi, int nreg)
+{
+    if (qthread_num_shepherds() < 2 || qlib->nworkerspershep != 1) { XPRINT("XP3 CONFIG\n"); return; }
+    unsigned fmax = freelist_max;
+    char pw[MAXOPS]; pw[0] = 0;
+    for (unsigned i = 0; i < fmax; i++) strcat(pw, "d ");
+    strcat(pw, "e900 d");
+    char pe[8] = "d";
+    parse_prog(&progs[1], pw); parse_prog(&progs[0], pe);
+    arena_setup(hi); arena_on = 1;
+    reset_hazard_slots();
+    lfq = qlfqueue_create();
+    for (unsigned v = 1; v <= fmax; v++) qlfqueue_enqueue(lfq, (void *)(uintptr_t)v);
+    for (int i = 0; i < nreg; i++) { pthread_t r; pthread_create(&r, NULL, xp3_reg_thread, NULL); pthread_join(r, NULL); }
+    pthread_t eth;
+    for (int t = 0; t < 2; t++) { t_finished[t] = 0; sem_init(&lf_done[t], 0, 0); }
+    qthread_fork_to(lf_task, (void *)(intptr_t)1, NULL, 1); ctl_wait();
+    pthread_create(&eth, NULL, xp3_ext_thread, (void *)(intptr_t)0); ctl_wait();
+    XPRINT("XP3 start | fmax %u | hzlen %lu\n", fmax, (unsigned long)hzptr_list_len);
+    int n;
+    /* 1: W dequeues fmax-1 elements (retired list: fmax-1 nodes, no scan yet) */
+    for (n = 0; xp_nwres < (int)fmax - 1 && n < 2000; n++) xp_grant(1);
+    /* 2: E runs its dequeue up to the CAS on q->head */
+    for (n = 0; n < 10 && xp_grant(0) != K_CAS; n++) ;
+    uintptr_t *es = xp_eslots();
+    void *X = es ? (void *)es[0] : NULL, *Y = es ? (void *)es[1] : NULL;
+    /* 3: W's fmax-th dequeue retires X: hazardous_scan */
+    for (n = 0; xp_nwres < (int)fmax && n < 100; n++) xp_grant(1);
+    int xfreed = xp_in_free(X), lost = (xfreed && es && (void *)es[0] == X);
+    XPRINT("XP3 scan | X %ld Y %ld | slotE %ld %ld | X_freed %d Y_freed %d | hzlen %lu | verdict %s\n", arena_ord(X), arena_ord(Y),
+           es ? arena_ord((void *)es[0]) : -1, es ? arena_ord((void *)es[1]) : -1, xfreed, xp_in_free(Y), (unsigned long)hzptr_list_len,
+           lost ? "PROTECTION-LOST (node named by the external thread's hazard slot was freed)" : "PROTECTED");
+    /* 4: W enqueues 900 (LIFO pool: re-uses X when it was freed) and dequeues it: q->head == X again when X was recycled */
+    for (n = 0; !t_finished[1] && n < 100; n++) xp_grant(1);
+    XPRINT("XP3 W done | head %ld (X %ld) | W got", arena_ord(lfq->head), arena_ord(X));
+    for (int i = 0; i < xp_nwres; i++) printf(" %lu", xp_wres[i]);
+    XPRINT("\n");
+    /* 5: E performs its CAS(&q->head, X, Y) */
+    int k = xp_grant(0);
+    int cas_ok = (k == K_REL);
+    XPRINT("XP3 E-CAS | succeeded %d%s\n", cas_ok, cas_ok ? " (ABA: q->head == X again because X was freed and handed out again; q->head is now the RETIRED node Y)" : " (E retries)");
+    if (!cas_ok) for (n = 0; !t_finished[0] && n < 100; n++) xp_grant(0);
+    /* 6: the controller (a qthread: worker 0) drains the queue */
+    unsigned long drained[64]; int nd = 0; void *p;
+    while (nd < 64 && (p = qlfqueue_dequeue(lfq)) != NULL) drained[nd++] = (unsigned long)(uintptr_t)p;
+    /* conservation so far: enqueued 1..fmax and 900; delivered = W's results + drain (+ E's result, still pending when cas_ok) */
+    int cnt[1024]; memset(cnt, 0, sizeof cnt); int dup = 0, lostc = 0;
+    for (int i = 0; i < xp_nwres; i++) if (xp_wres[i] < 1024) cnt[xp_wres[i]]++;
+    for (int i = 0; i < nd; i++) if (drained[i] < 1024) cnt[drained[i]]++;
+    if (t_finished[0] && res_buf[0][0] == 'p') { unsigned long ev = strtoul(res_buf[0] + 1, NULL, 10); if (ev && ev < 1024) cnt[ev]++; }
+    printf("XP3 conservation | drained");
+    for (int i = 0; i < nd; i++) printf(" %lu", drained[i]);
+    printf(" | E %s | dup", t_finished[0] ? res_buf[0] : "pending");
+    for (unsigned v = 1; v <= 900; v++) if ((v <= fmax || v == 900) && cnt[v] > 1) { printf(" %u", v); dup++; }
+    printf(" | lost");
+    for (unsigned v = 1; v <= 900; v++) if ((v <= fmax || v == 900) && cnt[v] == 0) { printf(" %u", v); lostc++; }
+    XPRINT(" | verdict %s\n", (dup || lostc) ? "VIOLATED" : "OK");
+    /* 7: E finishes (unchanged code: hazardous_release_node dereferences the NULL worker) */
+    for (n = 0; !t_finished[0] && n < 100; n++) xp_grant(0);
+    pthread_join(eth, NULL);
+    XPRINT("XP3 F | E %s | W finished %d\n", res_buf[0], t_finished[1]);
+}
+static void run_xp(char *line)
+{
+    int sc = 0; unsigned long a = 0, b = 0, c = 0;
+    sscanf(line + 2, "%d %lu %lu %lu", &sc, &a, &b, &c);
+    xp_signals();
+    if (sc == 1) run_xp1((int)a, (int)b, c);
+    else if (sc == 2) run_xp2(a);
+    else if (sc == 3) run_xp3((int)a, (int)b);
+    else XPRINT("XP ERR\n");
+    fflush(stdout);
+    _exit(0);
+}
+/* ------------------------------------------------------------------ end extension H (XP) */
+
 /* ------------------------------------------------------------------ main */
 int main(int argc, char **argv)
 {
@@ -902,6 +1102,7 @@ int main(int argc, char **argv)
         else if (!strncmp(line, "DQ", 2)) run_dq(line);
         else if (!strncmp(line, "DM", 2)) run_dm(line);       /* extension H (DM) */
         else if (!strncmp(line, "DC", 2)) run_dc();           /* extension H (DM) */
+        else if (!strncmp(line, "XP", 2)) run_xp(line);       /* extension H (XP): experiment mode, not used by ./check */
         else if (line[0] == 'Q') break;
         fflush(stdout);
     }
